@@ -3,6 +3,7 @@ package props
 import (
 	"bytes"
 	"fmt"
+	"os"
 	"sort"
 	"strings"
 	"sync"
@@ -277,6 +278,69 @@ func TestC17(t *testing.T) {
 		})
 		rec.Exhaustive(fmt.Sprintf("decode-resolution/%d", ci))
 	}
+
+	// (a'') a dictionary file that is loaded again after it was edited - with LoadFile, the file
+	//       keeping its length and its modification time (cp -p, rsync -t, two writes within one
+	//       tick of the clock): the most recently loaded definition wins
+	rec.Suite("file-reloaded", 4, func(c *ev.Case) {
+		dir := t.TempDir()
+		path := dir + "/ext.xml"
+		mk := func(typ string, code int) string {
+			return fmt.Sprintf(`<?xml version="1.0" encoding="UTF-8"?><diameter><application id="0" name="Base"><avp name="X-Reloaded" code="%d" must="M"><data type="%s"/></avp></application></diameter>`, code, typ)
+		}
+		first, second := mk("Unsigned32", 9601), mk("Unsigned64", 9601)
+		if c.I%2 == 1 {
+			second = mk("Unsigned32", 9602)
+		}
+		sameStat := c.I/2 == 0
+		c.Class("file-reloaded/changed=%s/same-size-and-mtime=%v", []string{"type", "code"}[c.I%2], sameStat)
+		sig := ev.Sig{"op": "lookup", "form": "file-reloaded"}
+		if err := os.WriteFile(path, []byte(first), 0o644); err != nil {
+			c.Fail(ev.Sig{"op": "setup"}, nil, nil, "%v", err)
+			return
+		}
+		st, _ := os.Stat(path)
+		p, err := dict.NewParser()
+		if err == nil {
+			err = p.LoadFile(path)
+		}
+		if err != nil {
+			c.Fail(ev.Sig{"op": "setup"}, nil, nil, "LoadFile: %v", err)
+			return
+		}
+		if a, err := p.FindAVP(0, "X-Reloaded"); err != nil || a.Code != 9601 || a.Data.TypeName != "Unsigned32" {
+			c.Fail(sig, nil, nil, "after the first LoadFile X-Reloaded resolves to %+v (err=%v)", a, err)
+			return
+		}
+		if !sameStat {
+			second += "\n"
+		}
+		if err := os.WriteFile(path, []byte(second), 0o644); err != nil {
+			c.Fail(ev.Sig{"op": "setup"}, nil, nil, "%v", err)
+			return
+		}
+		if sameStat {
+			os.Chtimes(path, st.ModTime(), st.ModTime())
+		}
+		if err := p.LoadFile(path); err != nil {
+			c.Fail(sig, nil, nil, "LoadFile of the edited file: %v", err)
+			return
+		}
+		wantCode, wantType := uint32(9601), "Unsigned64"
+		if c.I%2 == 1 {
+			wantCode, wantType = 9602, "Unsigned32"
+		}
+		if a, err := p.FindAVP(0, "X-Reloaded"); err != nil || a.Code != wantCode || a.Data.TypeName != wantType {
+			c.Fail(sig, nil, nil, "the file was edited (same length and modification time: %v) and loaded again: X-Reloaded resolves to code %d type %s (err=%v), the file now says code %d type %s", sameStat, a.Code, a.Data.TypeName, err, wantCode, wantType)
+			return
+		}
+		if a, err := p.FindAVP(0, wantCode); err != nil || a.Name != "X-Reloaded" || a.Data.TypeName != wantType {
+			c.Fail(sig, nil, nil, "after the reload code %d resolves to %+v (err=%v)", wantCode, a, err)
+			return
+		}
+		c.Event("lookups", 3)
+		c.Event("load_orders", 1)
+	})
 
 	// (b) generated dictionary sets loaded in every order; monotonicity
 	rec.Suite("generated-sets", rec.N(150, 60000), func(c *ev.Case) { generatedSet(c) })
